@@ -100,7 +100,7 @@ class Case:
             l.append("validator " + self.validator)
         if self.printer:
             l.append("printer 1")
-        for k in ("highlight", "signals", "paste", "helper_panic_at", "auto_add", "printers", "printers_late", "linger", "stdout_full", "max_hist", "tab_stop", "indent_size", "prompt_limit"):
+        for k in ("highlight", "signals", "paste", "helper_panic_at", "auto_add", "printers", "printers_late", "linger", "stdout_full", "max_hist", "tab_stop", "indent_size", "prompt_limit", "show_all"):
             if k in self.meta:
                 l.append("%s %s" % (k, self.meta[k]))
         for ks, cmd in self.binds:
@@ -122,7 +122,7 @@ class Case:
             kv.append("hints=" + ",".join(self.s(c) for c in self.hints))
         for ks, cmd in self.binds:
             kv.append("bind=%s %s" % (ks, cmd))
-        for k in ("tab_stop", "indent_size", "prompt_limit"):
+        for k in ("tab_stop", "indent_size", "prompt_limit", "show_all"):
             if k in self.meta:
                 kv.append("%s=%s" % (k, self.meta[k]))
         toks = []
@@ -442,7 +442,7 @@ def c01_cases(tier, seed):
             t = t.replace(" ", "\n", 2)
         k = rng.randint(0, len(t))
         cases.append(Case(gen_vi_ops(rng, t), mode="vi", initial=(t[:k], t[k:]), timeout=0, prompt="> ",
-                          meta={"indent_size": rng.choice([1, 3, 4, 8])} if rng.random() < 0.4 else {}))
+                          meta={"indent_size": rng.choice([1, 3, 4, 8, 33, 40])} if rng.random() < 0.4 else {}))
     # every operator with every character search (to / till, forward / backward), on characters that do occur, then put / undo
     for op in ("d", "y", "c"):
         for cs in ("f", "t", "F", "T"):
@@ -644,7 +644,8 @@ def c14_cases(tier, seed):
         cases.append(Case(keys, mode=mode, completion=ct, cands=cands, initial=mk_initial(rng, 0.3, ["f", "o", " ", "b", "a", "é"]),
                           timeout=0 if mode == "vi" else rng.choice(["none", 0]), prompt=rng.choice(["> ", "日> "]),
                           cols=rng.choice([20, 12, 32, 33, 34]) if wide else rng.choice([80, 80, 30]),
-                          meta=({"prompt_limit": rng.choice([0, 1, 2, 3])} if rng.random() < 0.25 else {})))
+                          meta=dict(({"prompt_limit": rng.choice([0, 1, 2, 3])} if rng.random() < 0.25 else {}),
+                                    **({"show_all": 1} if ct == "list" and rng.random() < 0.3 else {}))))
     return cases
 
 
